@@ -942,6 +942,25 @@ mod tests {
     }
 
     #[test]
+    fn test_frozen_single_edge_to_node_zero() {
+        let adj = ChunkedAdjacency::new();
+        adj.add_edge(NodeId::new(5), NodeId::new(0), EdgeId::new(7));
+        adj.compact();
+        adj.freeze_all();
+        assert_eq!(
+            adj.edges_from(NodeId::new(5)),
+            vec![(NodeId::new(0), EdgeId::new(7))]
+        );
+
+        let adj = ChunkedAdjacency::with_chunk_capacity(1);
+        for edge in 0..6 {
+            adj.add_edge(NodeId::new(5), NodeId::new(0), EdgeId::new(edge));
+        }
+        adj.compact();
+        assert_eq!(adj.out_degree(NodeId::new(5)), 6);
+    }
+
+    #[test]
     fn test_in_degree() {
         let adj = ChunkedAdjacency::new();
 
